@@ -207,13 +207,29 @@ fn class_completion_case(rng: &mut Rng, ctx: &mut Ctx) {
         let mut s = format!("class {}", name);
         if ar > 0 {
             s.push('<');
+            // parameters from `first_default` on carry a default: a literal, `?`, or an operator expression
+            // (with and without an inferable type) that may read an earlier parameter
+            let first_default = if rng.chance(1, 2) { rng.below(ar + 1) } else { ar };
             for i in 0..ar {
                 if i > 0 {
                     s.push_str(", ");
                 }
-                s.push_str(&format!("{} p{}", tys[rng.below(tys.len())], i));
-                if rng.chance(1, 3) && i == ar - 1 {
-                    s.push_str(if tys.contains(&"int") { " = ?" } else { "" });
+                let with_default = i >= first_default;
+                let ty = if with_default && rng.chance(2, 3) { "int" } else { tys[rng.below(tys.len())] };
+                s.push_str(&format!("{} p{}", ty, i));
+                if with_default {
+                    let d = if ty == "int" {
+                        match rng.below(5) {
+                            0 => "7".to_string(),
+                            1 => "!cond(true: 1)".to_string(),
+                            2 => "!add(1, 2)".to_string(),
+                            3 => "!if(true, 1, 2)".to_string(),
+                            _ => "?".to_string(),
+                        }
+                    } else {
+                        "?".to_string()
+                    };
+                    s.push_str(&format!(" = {}", d));
                 }
             }
             s.push('>');
@@ -237,22 +253,31 @@ fn class_completion_case(rng: &mut Rng, ctx: &mut Ctx) {
     // the parent-class position
     let target = classes[rng.below(classes.len())].0.clone();
     let prefix_len = rng.range(1, target.len());
-    let variant = rng.below(3);
+    let variant = rng.below(7);
     let head = match variant {
         0 => "class Q : ".to_string(),
         1 => format!("class Q : {}, ", classes[0].0),
-        _ => "def q : ".to_string(),
+        2 => "def q : ".to_string(),
+        // a defm may name ordinary classes after its multiclass(es)
+        3 => "defm dm : NotAClassEither, ".to_string(),
+        4 => "foreach i = [1, 2] in defm dm#i : NotAClassEither, ".to_string(),
+        5 => "let f = 1 in def q : ".to_string(),
+        _ => "multiclass Outer { defm inner : NotAClassEither, ".to_string(),
     };
+    ctx.feature(&format!("parent_position:{}", ["class", "class-second", "def", "defm-after-multiclass", "defm-in-foreach", "def-in-let", "defm-in-multiclass"][variant]));
     root.push_str(&head);
     let offset = root.len() + prefix_len;
     root.push_str(&target[..prefix_len]);
-    let closed = rng.chance(1, 2);
+    let closed = rng.chance(1, 2) || variant == 6;
     root.push_str(if closed { ";\n" } else { "\n" });
+    if variant == 6 {
+        root.push_str("}\n");
+    }
     // later declarations belong to the workspace too
     if rng.chance(1, 2) {
         decl(&mut root, rng, &mut classes);
     }
-    if variant != 2 {
+    if variant < 2 {
         classes.push(("Q".to_string(), 0));
     }
     let mut files = vec![("/ws/main.td".to_string(), root)];
@@ -358,10 +383,10 @@ impl Check for C20 {
         }
     }
     fn rule(&self) -> String {
-        "EXHAUSTIVE over the finite vocabularies: every item Analysis::completion offers at 6 keyword/type/value fixtures and 3 '!'-trigger fixtures is lexed by the server's Lexer and must be exactly one token of the keyword / type / operator kind an independent name table assigns (c14.rs tables); every file-level keyword must start a minimal statement of the documented grammar that syntax::parse accepts with zero errors; every offered type must be accepted in a field declaration; for every candidate operator name (the reference's 52 names + known variants + everything offered) that the Lexer classifies as a bang/cond operator, the name must be among the operators offered after '!'. SAMPLED: random workspaces (root + optional include) declaring 1-9 classes of arity 0-3 plus a def and a multiclass; completion at a parent-class position (class and def parents, first and later parent, statement closed or still being typed, prefix of every length) must offer exactly the workspace's classes, each with one snippet placeholder per template parameter. non-trivial = each (fixture, offered item) pair and each class-completion workspace; distinct by digest".into()
+        "EXHAUSTIVE over the finite vocabularies: every item Analysis::completion offers at 6 keyword/type/value fixtures and 3 '!'-trigger fixtures is lexed by the server's Lexer and must be exactly one token of the keyword / type / operator kind an independent name table assigns (c14.rs tables); every file-level keyword must start a minimal statement of the documented grammar that syntax::parse accepts with zero errors; every offered type must be accepted in a field declaration; for every candidate operator name (the reference's 52 names + known variants + everything offered) that the Lexer classifies as a bang/cond operator, the name must be among the operators offered after '!'. SAMPLED: random workspaces (root + optional include) declaring 1-9 classes of arity 0-3 (parameters with and without defaults: literals, `?`, operator expressions with and without an inferable type) plus a def and a multiclass; completion at a parent-class position (class and def parents, first and later parent, a def under `let`, the class positions of a defm parent list after its multiclass - at file level, under foreach and inside a multiclass -, statement closed or still being typed, prefix of every length) must offer exactly the workspace's classes, each with one snippet placeholder per template parameter. non-trivial = each (fixture, offered item) pair and each class-completion workspace; distinct by digest".into()
     }
     fn floors(&self, tier: Tier) -> Vec<(&'static str, u64)> {
-        vec![("vocabulary_unit", 1), ("vocabulary_items", 30), ("operator_items", 100), ("lexer_accepted_operators", 150), ("toplevel_statements_parsed", 20), ("class_completion_cases", tier.pick(3500, 60_000)), ("class_completion_with_include", 300), ("arity:3", 100)]
+        vec![("vocabulary_unit", 1), ("vocabulary_items", 30), ("operator_items", 100), ("lexer_accepted_operators", 150), ("toplevel_statements_parsed", 20), ("class_completion_cases", tier.pick(3500, 60_000)), ("class_completion_with_include", 300), ("arity:3", 100), ("parent_position:defm-after-multiclass", 100), ("parent_position:defm-in-multiclass", 100), ("parent_position:def-in-let", 100)]
     }
     fn exhaustive(&self, _tier: Tier) -> Option<String> {
         Some("the completion vocabularies at the 9 fixtures x the lexer's keyword and operator tables (finite)".into())
